@@ -100,6 +100,19 @@ def run_pls(ck, rng, tier, which):
             Bc = np.array([[rng.gauss(0, 1) * 300.0 for _ in range(ny)] for _ in range(m)])
             Y = X @ Bc
             ck.count("collinear descriptors, responses on the small directions")
+        if c == 13:
+            # a 2^3 factorial design with small setting errors plus centre points (nearly orthogonal descriptors of equal length)
+            n, m, ny, xs, noise = 10, 3, 1, rng.choice((0, 1)), 0.2
+            D_ = np.array([[a_, b_, c_] for a_ in (-1.0, 1.0) for b_ in (-1.0, 1.0) for c_ in (-1.0, 1.0)] + [[0.0, 0, 0], [0.0, 0, 0]])
+            X = D_ + 0.02 * np.array([[rng.gauss(0, 1) for _ in range(3)] for _ in range(10)])
+            Y = (X @ np.array([[1.0], [-2.0], [0.5]]) + 0.2 * np.array([[rng.gauss(0, 1)] for _ in range(10)])) + 3.0
+            ck.count("perturbed factorial design")
+        if c == 14:
+            # more responses than descriptors (2 descriptors, 3 responses)
+            m, ny = 2, 3
+            n = max(n, 8)
+            X, Y = gen_xy(rng, n, m, ny, noise)
+            ck.count("more responses than descriptors")
         designed = c in (9, 17)
         designed = c in (9, 17)
         if designed:
@@ -128,7 +141,7 @@ def run_pls(ck, rng, tier, which):
             nlv = rank
         if designed:
             nlv = rank
-        if c == 12:
+        if c in (12, 13, 14):
             nlv = rank
         Xnew = np.array([[rng.gauss(0, 1) * 2 + rng.uniform(-3, 3) for _ in range(m)] for _ in range(3)])
         lines.append("pls %s %s %s %d %d %d" % (vf.fmt_mat(X.tolist(), m), vf.fmt_mat(Y.tolist(), ny), vf.fmt_mat(Xnew.tolist(), m), xs, ys, nlv))
